@@ -130,7 +130,7 @@ func main() {
 			word := make([]int, len(e.X)+r)
 			copy(word, e.X)
 			for i := len(e.X); i < len(word); i++ {
-				word[i] = 0x5A5A // stale content of the parity area must not matter
+				word[i] = q - 1 // stale content of the parity area must not matter
 			}
 			enc := encs[e.F]
 			e.Panic, e.Msg = guarded(30*time.Second, func() {
